@@ -116,6 +116,11 @@ def _random_case(r, n=None):
         if "fp" not in ks and r.chance(1, 2):
             ks[0] = "fp"
         c["metrics"] = [_metric(r, n, k, k) for k in ks]
+        if r.chance(1, 4):
+            # the SAME callable object registered under a second (and third) name with its own parameters
+            k = r.choice(ks)
+            for j in range(r.randint(1, 2)):
+                c["metrics"].append(_metric(r, n, f"{k}x{j}", k))
     return c
 
 
@@ -257,7 +262,12 @@ def impl(case):
     n = case["n"]
     spk = case.get("sp_container")
     y_true = [2 * i + l for i, l in enumerate(case["label"])]
-    fns = {m["name"]: _make_metric(m["kind"], m["name"]) for m in case["metrics"]}
+    shared = {}
+    fns = {}
+    for m in case["metrics"]:      # metrics of the same kind are ONE callable object under several names
+        if m["kind"] not in shared:
+            shared[m["kind"]] = _make_metric(m["kind"], m["name"])
+        fns[m["name"]] = shared[m["kind"]]
     if case["callable"]:
         m = case["metrics"][0]
         metrics = fns[m["name"]]
